@@ -43,6 +43,87 @@ def gen_case(rng, names):
             break
     return dict(world=w, opts=gen_opts(rng, names))
 
+# ------------------------------------------------------------------ canonical-collision stream
+# An alt-translation product almost never equals a canonical peptide of ANOTHER protein in random worlds, so "minus the
+# canonical pool" would go untested.  This stream adds a coding gene whose protein is assembled from W>F images of
+# canonical peptides of the same world (some / all tryptophans replaced) and ends with the prefix-before-U of a
+# Sec-containing canonical peptide: those images / truncations are then canonical and must be ABSENT, while the other
+# W subsets must still be present.
+def _w_image(rng, P):
+    ws = [i for i, ch in enumerate(P) if ch == 'W']
+    if not ws:
+        return P
+    pick = [i for i in ws if rng.random() < 0.6] or [rng.choice(ws)]
+    return ''.join('F' if i in pick else ch for i, ch in enumerate(P))
+
+def add_coding_gene(w, rng, prot, n):
+    from harness.props import c08 as P8
+    utr5 = G.rand_dna(rng, rng.randint(0, 12)).replace('ATG', 'ACG')
+    dna = utr5 + G.backtranslate(rng, prot) + rng.choice(['TAA', 'TAG']) + G.rand_dna(rng, rng.randint(0, 9))
+    P8.add_lnc_gene(w, rng, dna, n)
+    g = w['genes'][-1]
+    t = g['transcripts'][0]
+    g['biotype'] = t['biotype'] = 'protein_coding'
+    t['cds'] = [len(utr5), len(utr5) + 3 * len(prot)]
+    t['cds_feature_start'] = len(utr5)
+    t['protein_id'] = 'ENSP' + t['id'][4:]
+    t['utr'] = rng.random() < 0.5
+    assert G.protein_of(w, g, t) == prot, (G.protein_of(w, g, t), prot)
+
+def gen_collision_cases(rng, names, n):
+    base = []
+    for _ in range(n):
+        while True:
+            w = G.gen_world(rng, small=True, coding_p=1.0, bias='KRKRPMWWDEFLC', sec_p=0.9, nf_p=rng.choice([0.0, 0.2]), max_genes=3)
+            if not split_sec(w):
+                break
+        o = gen_opts(rng, names)
+        o['rule'] = rng.choice(['trypsin'] * 6 + ['lysc', 'arg-c', 'glutamyl endopeptidase'])
+        o['exc'] = 'trypsin_exception' if (o['rule'] == 'trypsin' and rng.random() < 0.3) else None
+        o.update(min_len=rng.choice([3, 5]), max_len=rng.choice([25, 40]), mw4=rng.randrange(0, 10000))
+        o['min_mw'] = o['mw4'] / 10000.0 + 0.00005
+        base.append(dict(world=w, opts=o))
+    pools = O.call_parallel([('pool', [c['opts']['rule'], c['opts']['exc'], lim_of(c['opts']), prot_rows(c['world'])]) for c in base], jobs=8)
+    out = []
+    for c, pl in zip(base, pools):
+        if isinstance(pl, str) or pl[0] == 1:
+            continue
+        canon = sorted(set(O.U(p) for p in pl[1]))
+        withw = [p for p in canon if 'W' in p and 'U' not in p]
+        withu = [p for p in canon if 'U' in p and p.index('U') >= 2]
+        starts = [p for p in canon if p.startswith('M') and 'U' not in p]
+        if not withw or not starts:
+            continue
+        prot = rng.choice(starts)
+        for _ in range(rng.randint(1, 3)):
+            prot += _w_image(rng, rng.choice(withw))
+        if withu and c['opts']['sect'] and rng.random() < 0.8:
+            pu = rng.choice(withu)
+            prot += pu[:pu.index('U')]
+        add_coding_gene(c['world'], rng, prot, 1)
+        c['seeded'] = True
+        out.append(c)
+    return out
+
+def measure_collisions(cases):
+    if not cases:
+        return {}
+    reqs = []
+    for c in cases:
+        reqs.append(model_req(c))
+        r2 = list(model_req(c)[1]); r2[5] = []
+        reqs.append(('c09_alt', r2))
+    ms = O.call_parallel(reqs, jobs=8)
+    st = dict(cases=len(cases), cases_with_pool_hit=0, candidates_removed_by_pool=0)
+    for i in range(len(cases)):
+        a, b = ms[2 * i], ms[2 * i + 1]
+        if isinstance(a, str) or isinstance(b, str) or a[0] == 1 or b[0] == 1:
+            continue
+        removed = set(O.U(p) for p in b[2]) - set(O.U(p) for p in a[2])
+        st['candidates_removed_by_pool'] += len(removed)
+        st['cases_with_pool_hit'] += 1 if removed else 0
+    return st
+
 def coding(w):
     return [(g, t) for g in w['genes'] for t in g['transcripts'] if t.get('cds')]
 
@@ -232,7 +313,11 @@ def run(ctx):
     for _ in range(4):           # neither flag -> ValueError
         c = gen_case(rng, names); c['opts']['sect'] = c['opts']['w2f'] = False
         cases.append(c)
+    seeded = gen_collision_cases(rng, names, 150 if ctx.quick else 5000)
+    cases += seeded
     results = evaluate(ctx, cases)
+    collide = dict(collision_stream=measure_collisions(seeded[:150 if ctx.quick else 1000]),
+                   random_stream=measure_collisions(cases[len(corp):len(corp) + (150 if ctx.quick else 1000)]))
     first = True
     for r in results:
         if r['probs'] and first:
@@ -275,7 +360,8 @@ def run(ctx):
                      'flags through call_alt_translation(args); non-trivial = non-empty obliged set; plus a unit stream for '
                      'MiscleavedNodes.translational_modification vs node_tmod',
                 samples=[dict(opts=c['opts'], n_genes=len(c['world']['genes'])) for c in cases[:3]],
-                distribution=dist, failures=sum(1 for r in results if r['probs']), bracket=tot, headers_checked=tot['labels'],
+                distribution=dist, failures=sum(1 for r in results if r['probs']), bracket=tot,
+                streams={'random_worlds': len(cases) - len(seeded), 'canonical_collision': len(seeded)}, pool_clause_measured=collide, headers_checked=tot['labels'],
                 tmod_cases=len(tm), tmod_disagreements=len(tbad), corpus=[f for f, _ in corp], violations=v[:14],
                 engine_tied_by='correspondence',
                 assumptions=['DNA over A/C/G/T', 'mass thresholds off the 1e-4 grid',
